@@ -8,12 +8,24 @@ SPEC = dict(
     rtol=1e-9, atol=1e-12,
     rule="random stepUp/stepAny arguments (ends, near ends, interior), Function_::Step over Real and Vec3 inside/outside "
          "the switching interval in both orientations, Constant/Linear/Polynomial (degree 0..8, every derivative order up to "
-         "degree+2)/Sinusoid (orders 0..11) parameters, interpolating splines of degree 1,3,5,7 over Real and Vec3 with random "
-         "knots (every derivative order 0..degree+1 at knots, interior points and both ends); distinct = distinct input records",
-    partial="spline fitting (vendored GCVSPL gcvspl_) is not modelled: interpolation through the control points, continuity of "
-            "derivatives up to degree-1 across knots and derivative-vs-finite-difference consistency are implementation-side "
-            "predicates; the evaluation routine SimTK_splder_/search_ is modelled statement by statement and tied by "
-            "correspondence but only its order>=2m clause is a theorem; BicubicSurface is not covered",
+         "degree+2)/Sinusoid (orders 0..11) parameters; splines of degree 1,3,5,7 over Real and Vec3 from all five SplineFitter "
+         "entry points (interpolating, fixed smoothing parameter, GCV, error variance, residual dof) on six knot layouts "
+         "(uniform, random, one long last / first interval, geometrically growing / shrinking; mesh ratio up to 400:1), every "
+         "derivative order 0..degree+1 at knots, interior points, early in the last and late in the first interval; "
+         "BicubicSurface/BicubicFunction on regular and irregular grids (predicate-only); every fit mode, every graded layout "
+         "and two bicubic surfaces are generated at least once per run; coverage floor P-lines; distinct = distinct input records",
+    partial="(i) proved about the executed model: every Constant/Linear/Polynomial/Sinusoid derivative clause and every Step/"
+            "stepUp/stepDown/stepAny clause (formal derivatives of the same code over K[X]; order facts over any ordered field); for "
+            "splines only instance theorems: the executed evaluator splderAt run over a computable polynomial type is, for linear "
+            "(knots 0,1,3) and cubic (knots 0,1,3,4,6) splines, every coefficient basis vector and every interval, a chain of formal "
+            "derivatives, C^(degree-1) across knots, natural at the ends (kernel-checked). "
+            "(ii) predicate-only: for general knots/degrees 'spline derivatives are the derivatives of the value' (exact "
+            "differentiation of the polynomial through degree+1 samples per interval; no allowance from the implementation's own "
+            "derivatives), continuity across knots (one-sided polynomial extrapolation), interpolation through the control points "
+            "(the fitting routine gcvspl_ is not modelled); BicubicFunction value/partials up to order 3/C2/symmetry (no model). "
+            "(iii) not covered: the GCVSPL fitting algorithm itself, Spline_ outside the knot range (GCVSPLUtil::splder asserts "
+            "x[0]<=t<=x[n-1]: not a legal call), degree > 7, BicubicSurface PatchHint reuse and explicit-derivative constructors, "
+            "Function_<T> for T other than Real (Step/Spline also Vec3)",
     assumptions=["libm sin/cos/pow are trusted; the sinusoid theorems use the trig-pair derivative convention (DESIGN.md §3 item 6)",
                  "derivative statements are formal (Mathlib Polynomial.derivative of the model run over K[X])"],
 )
